@@ -3,8 +3,8 @@
    Model: Cache/PCache.v (internal/caching/pcache.go), Cache/LoadMap.v (loader.LoadMany -> Load);
    constants from Gen/CacheConsts.v (regenerated from the source on every run). *)
 From Coq Require Import NArith List.
-From SV.Gen Require Import CacheConsts LoaderMap.
-From SV.Cache Require Import PCache PCacheProofs LoadMap C09Model C09Thm.
+From SV.Gen Require Import CacheConsts LoaderMap EncCacheKey.
+From SV.Cache Require Import PCache PCacheProofs LoadMap C09Model Served C09Thm.
 Import ListNotations.
 Open Scope N_scope.
 
@@ -82,3 +82,37 @@ Example C09_loadmany_own_code_same_names :
   let items := [mkItem [100; 95; 120; 46; 84] [184; 1; 0; 0; 0; 195]; mkItem [100; 95; 120; 46; 84] [184; 2; 0; 0; 0; 195; 204; 204]] in
   loader_loadmany items = [Some 0; Some 6].
 Proof. exact loadmany_own_code_same_names. Qed.
+
+(* WHICH PROGRAM SERVES A TYPE.  The encoder caches are keyed by (type, pointer-value flag) - key shape regenerated from
+   internal/encoder/vars/cache.go on every run (Gen/EncCacheKey.v).  For every hash function, every compiler
+   `compile : type -> pv -> program or error` and EVERY history of FindOrCompile (every Marshal / OP_recurse), pretouchType and
+   pretouchRec batches, with any flags, in any order: nothing panics, every FindOrCompile(vt, pv) returned exactly
+   compile vt pv, and afterwards the program cached for (vt, pv) is - if any - compile vt pv.  It never depends on which call
+   compiled first.  (Before /repo ea86c56 the key was the type only and this was false: C09_served_type_only_key_refuted.) *)
+Theorem C09_served_history_free :
+  forall (hash : N -> N) (compile : N -> bool -> option N) (h : list hop),
+    (forall k pv v, compile k pv = Some v -> v <> 0) ->
+    Forall hop_ok h ->
+    LoadFactor_den * (hsize h + 1) <= LoadFactor_num * 2 ^ 31 ->
+    exists st', enc_hrun hash compile h = Some (st', expected compile h) /\
+                forall k pv, k <> 0 ->
+                  let v := Get hash (st' (GetProgram_get pv)) k in v = 0 \/ compile k pv = Some v.
+Proof. exact served_history_free. Qed.
+Print Assumptions C09_served_history_free.
+
+Example C09_served_hypotheses_satisfiable :
+  let compile := fun (k : N) (pv : bool) => if k =? 9 then None else Some (2 * k + (if pv then 1 else 0)) in
+  let h := [HFind 3 true; HBatch [(3, false); (4, true); (9, false)]; HFind 3 false; HPretouch 4 false; HFind 4 true; HFind 9 true] in
+  Forall hop_ok h /\ LoadFactor_den * (hsize h + 1) <= LoadFactor_num * 2 ^ 31 /\
+  expected compile h = [Some 7; Some 6; Some 9; None].
+Proof. exact served_hypotheses_satisfiable. Qed.
+
+Example C09_served_type_only_key_refuted :
+  let compile := fun (k : N) (pv : bool) => Some (2 * k + (if pv then 1 else 0)) in
+  let one := fun (_ : bool) => tt in
+  let one2 := fun (pv : bool) => (tt, pv) in
+  let run := hrun unit (fun _ _ => true) (fun _ => 0) 1 2 compile one one2 one one2 (fun _ => newProgramMap 4) in
+  option_map snd (run [HFind 1 true; HFind 1 false]) = Some [Some 3; Some 3] /\
+  option_map snd (run [HFind 1 false; HFind 1 true]) = Some [Some 2; Some 2] /\
+  expected compile [HFind 1 true; HFind 1 false] = [Some 3; Some 2].
+Proof. exact served_type_only_key_refuted. Qed.
